@@ -70,12 +70,13 @@ class Type2TagCommandError(TagCommandError):
     }
 
 
-def read_tlv(memory, offset, skip_bytes):
+def read_tlv(memory, offset, skip_bytes, limit=0x100000):
     # Unpack a Type 2 Tag TLV from tag memory and return tag type, tag
     # length and tag value. For tag type 0 there is no length field,
     # this is returned as length -1. The tlv length field can be one
     # or three bytes, if the first byte is 255 then the next two byte
-    # carry the length (big endian).
+    # carry the length (big endian). If the TLV does not end before
+    # the memory offset *limit*, all values are returned as None.
     tlv_t, offset = (memory[offset], offset+1)
     if tlv_t in (0x00, 0xFE):
         return (tlv_t, -1, None)
@@ -87,6 +88,8 @@ def read_tlv(memory, offset, skip_bytes):
         while (offset + i) in skip_bytes:
             offset += 1
         tlv_v[i] = memory[offset+i]
+    if offset + tlv_l > limit:
+        return (None, None, None)
     return (tlv_t, tlv_l, tlv_v)
 
 
@@ -180,9 +183,13 @@ class Type2Tag(Tag):
                     offset += 1
 
                 try:
-                    tlv = read_tlv(tag_memory, offset, skip_bytes)
+                    tlv = read_tlv(tag_memory, offset, skip_bytes,
+                                   data_area_size + 16)
                     tlv_t, tlv_l, tlv_v = tlv
                 except Type2TagCommandError:
+                    return None
+                if tlv_t is None:
+                    log.debug("tlv at offset %d exceeds data area", offset)
                     return None
                 else:
                     logmsg = "tlv type {0} length {1} at offset {2}"
